@@ -399,4 +399,10 @@ Proof.
   - intros Hs. apply can_view_now_spec in Hs. rewrite Hs in H; discriminate.
   - destruct (can_view_now (TObj o)) eqn:E; [|reflexivity]. exfalso. apply H. apply can_view_now_spec. exact E.
 Qed.
+
+Theorem to_json_include_now_spec : forall related o l,
+  to_json_include rev_loop_iterates_reverse_rules obj_exclusion_tests_entity missing_reverse_rules_returns_false
+                  attr_ent attr_rev attr_hidden obj_ent rules ugroups uroles olabels related o = Some l ->
+  l = o :: related o /\ forall o', In o' l -> spec_now VIEW (TObj o') \/ spec_now EDIT (TObj o').
+Proof. intros related o l H. exact (to_json_now_spec _ _ H). Qed.
 End Now.
